@@ -86,6 +86,11 @@ def _mk_interp(ix, log, extra_stubs=None):
         ch.items.append(args[1])
         return [(st, "val", None)]
 
+    def sub_element(it, st, args, kw, node):
+        outs = element(it, st, args[1:], kw, node)
+        el_append(it, st, [args[0], outs[0][2]], {}, node)
+        return outs
+
     def sanitize(it, st, args, kw, node):
         v = args[0]
         if isinstance(v, Tainted):
@@ -97,6 +102,7 @@ def _mk_interp(ix, log, extra_stubs=None):
     stubs = {
         "@with": "transparent",
         "xml.etree.ElementTree.Element": element, "ElementTree.Element": element,
+        "xml.etree.ElementTree.SubElement": sub_element, "ElementTree.SubElement": sub_element,
         "XmlElem.set": el_set, "XmlElem.append": el_append,
         "_escape_invalid_xml_chars": sanitize,
         "text": lambda it, st, a, k, n: [(st, "val", "None" if (a and a[0] is None) else (a[0] if a else None))],
